@@ -151,9 +151,30 @@ PROPS.update({
                         "the emulated-ioctl hook H3 is not built in this session"],
     },
     "C18": {
-        "modules": ["VmMem.Props.C18"], "theorems": T("C18"),
+        "modules": ["VmMem.Props.C18", "VmMem.Props.C18g"], "theorems": T("C18") + T("C18g"),
         "runs": lambda tier: runs_slice(tier, streams=True) + runs_gm(tier, ["mixed"], chk=True),
         "trusted_base": [],
         "assumptions": ["Xen advance / on-demand regions are not exercised (standard build only)"],
+    },
+    "C03": {
+        "modules": ["VmMem.Props.C03"], "theorems": T("C03"),
+        "runs": lambda tier: runs_gm(tier, ["mixed", "edit"], {"drop": ["d="]}),
+        "trusted_base": ["C02 (address resolution), C04 (container data effect)", "kernel page-cache coherence of file mappings (observed, not proved)"],
+        "assumptions": ["layouts built through the safe constructors (WF); custom GuestMemory implementations with a region ending at 2^64 are outside the quantifier (no_wrap shows the wrap branch is dead under WF)"],
+    },
+    "C06": {
+        "modules": ["VmMem.Props.C06"], "theorems": T("C06"),
+        "runs": lambda tier: [{"world": "copy", "n": 3000 if tier == "quick" else 200000, "opts": [] if tier == "quick" else ["tear"]}],
+        "trusted_base": ["hardware: an aligned 1/2/4/8-byte volatile access is single-copy atomic on x86-64/aarch64 and is not split by the compiler",
+                         "AtomicInteger::load/store are std atomics (orderings are std's)", "hook H1 records every copy_single / bulk copy (hooks are add-only, reviewed)"],
+        "assumptions": ["PARTIAL for the schedules quantifier: the proof shows exactly one access of the right width; that one access is not torn is a hardware fact; "
+                        "the thorough tier adds a two-thread tearing detector as a black-box cross-check"],
+    },
+    "C08": {
+        "modules": ["VmMem.Props.C08"], "theorems": T("C08"),
+        "runs": lambda tier: [{"world": "atomic", "n": 3000 if tier == "quick" else 100000, "opts": [] if tier == "quick" else ["thorough"]}],
+        "trusted_base": ["SeqCst fetch_or / fetch_and are atomic read-modify-write steps and executions are sequentially consistent interleavings of them (justified by Ordering::SeqCst)",
+                         "load(Acquire) returns some value the word held", "hook H2 (AtomicU64 stand-in) forwards to std's AtomicU64"],
+        "assumptions": ["PARTIAL: weaker-than-SeqCst hardware effects are outside the model; reset() uses plain stores and is documented as not being a harvest (resetProgram_all_store)"],
     },
 })
